@@ -43,9 +43,9 @@ class Fn:
         self.rewrites.append((rule, ' '.join(old.split()), ' '.join(new.split())))
         return self
 
-    def rewrite_re(self, rule, pat, repl, where='body', min_count=0):
+    def rewrite_re(self, rule, pat, repl, where='body', min_count=0, flags_dotall=False):
         text = self.body if where == 'body' else self.sig
-        new, n = re.subn(pat, repl, text)
+        new, n = re.subn(pat, repl, text, flags=re.S if flags_dotall else 0)
         if n < min_count:
             raise ExtractError(f"lost anchor in {self.qual}: regex rewrite {rule} /{pat}/ matched {n}x")
         if n:
@@ -203,6 +203,34 @@ class Fn:
             raise ExtractError(f"lost anchor in {self.qual}: tail expression `{expr}`")
         self.body = self.body[:m.start()] + text + '\n' + self.body[m.start():]
         self.spec_inserts += 1
+        return self
+
+    def erase_error_messages(self, ctor, stub='errmsg()'):
+        """R8: the String argument of an error constructor (`.to_string()` / `format!(..)`) -> opaque stub"""
+        n = 0
+        pos = 0
+        while True:
+            m = re.search(re.escape(ctor) + r'\s*\(', self.body[pos:])
+            if not m:
+                break
+            o = pos + m.end() - 1
+            c = match_brace(self.body, o)
+            self.body = self.body[:o + 1] + stub + self.body[c:]
+            pos = o + 1
+            n += 1
+        if n:
+            self.rewrites.append(('R8', f'{n}x message argument of {ctor}(..)', stub))
+        return self
+
+    def truncate_after(self, anchor, tail, why):
+        """R13 prefix extraction: keep the body up to and including `anchor`, drop the rest, end with `tail`.
+        Only sound for contracts about the state at that point; the dropped suffix is named in the evidence."""
+        ms = _find_all(anchor, self.body)
+        if len(ms) != 1:
+            raise ExtractError(f"lost anchor in {self.qual}: truncate_after `{anchor[:60]}` matched {len(ms)}x")
+        dropped = len(self.body) - ms[0].end()
+        self.body = self.body[:ms[0].end()] + '\n' + tail + '\n}'
+        self.rewrites.append(('R13', f'function body truncated after `{" ".join(anchor.split())}` ({dropped} chars dropped)', why))
         return self
 
     def at_end(self, text):
